@@ -92,11 +92,35 @@ func vr01ShowPfx(p *net.IPNet) string {
 	return fmt.Sprintf("p%s/%d:%d", ipt[2:], ones, bits)
 }
 
+// Names from tokens.  Most tokens n give "<kind>n"; a few give names that differ from another one only in
+// case, by being its prefix / extension, or by being empty - so that a comparison that folds case, looks at a
+// prefix only or treats "" specially is visible.  (s: session ids, v: VRFs, p: profiles, n: pools.)
+var vr01Alias = map[string]string{"s5": "S1", "s6": "s11", "s7": "", "s8": "s", "v3": "V1", "v4": "v11", "p7": "P1", "n7": "N1"}
+
+func vr01Nm(kind byte, tok string) string {
+	if a, ok := vr01Alias[string(kind)+tok]; ok {
+		return a
+	}
+	return string(kind) + tok
+}
+
+func vr01UnNm(kind byte, name string) string {
+	for k, a := range vr01Alias {
+		if k[0] == kind && a == name {
+			return k[1:]
+		}
+	}
+	if len(name) < 2 {
+		return "?" + name
+	}
+	return name[1:]
+}
+
 func vr01Name(pfx, tok string) string {
 	if tok == "0" {
 		return ""
 	}
-	return pfx + tok
+	return vr01Nm(pfx[0], tok)
 }
 
 func vr01AddrStr(tok string) string {
@@ -115,7 +139,7 @@ func vr01BuildProfiles(f []string) (map[string]*ip.IPv4Profile, map[string]*ip.I
 	v4p := map[string]*ip.IPv4Profile{}
 	v6p := map[string]*ip.IPv6Profile{}
 	for i := 0; i < np; i++ {
-		pfname := "p" + f[p]
+		pfname := vr01Nm('p', f[p])
 		fam := f[p+1]
 		pgw := vr01AddrStr(f[p+2])
 		nk, _ := strconv.Atoi(f[p+3])
@@ -128,7 +152,7 @@ func vr01BuildProfiles(f []string) (map[string]*ip.IPv4Profile, map[string]*ip.I
 			v6p[pfname] = &ip.IPv6Profile{}
 		}
 		for j := 0; j < nk; j++ {
-			name := "n" + f[p]
+			name := vr01Nm('n', f[p])
 			prio, _ := strconv.Atoi(f[p+1])
 			vrf := vr01Name("v", f[p+2])
 			network := f[p+3]
@@ -170,7 +194,7 @@ func vr01BuildProfiles(f []string) (map[string]*ip.IPv4Profile, map[string]*ip.I
 
 func vr01Key(t string) string { // <pf>/<pool>
 	q := strings.Split(t, "/")
-	return "p" + q[0] + "/n" + q[1]
+	return vr01Nm('p', q[0]) + "/" + vr01Nm('n', q[1])
 }
 
 func vr01Unkey(k string) string {
@@ -178,10 +202,10 @@ func vr01Unkey(k string) string {
 		return k
 	}
 	q := strings.Split(k, "/")
-	if len(q) != 2 || len(q[0]) < 2 || len(q[1]) < 2 {
+	if len(q) != 2 {
 		return "?" + k
 	}
-	return q[0][1:] + "/" + q[1][1:]
+	return vr01UnNm('p', q[0]) + "/" + vr01UnNm('n', q[1])
 }
 
 func vr01Err(err error) string {
@@ -260,7 +284,7 @@ func vr01Res(f []string) string {
 				attrs := map[string]interface{}{}
 				vr01Attr(attrs, "ipv4_address", q[3], false)
 				vr01Attr(attrs, "pool", q[4], true)
-				ctx = allocator.NewContext("s"+q[0], nil, 0, 0, vr01Name("v", q[2]), "", vr01Name("p", q[1]), "", attrs)
+				ctx = allocator.NewContext(vr01Nm('s', q[0]), nil, 0, 0, vr01Name("v", q[2]), "", vr01Name("p", q[1]), "", attrs)
 				c4[q[0]] = ctx
 			} else if op[0] == 'y' {
 				if ctx = c4[op[1:]]; ctx == nil {
@@ -269,7 +293,7 @@ func vr01Res(f []string) string {
 				}
 			} else {
 				q := strings.Split(op[1:], ",")
-				ctx = &allocator.Context{SessionID: "s" + q[0], ProfileName: "p" + q[1], PoolOverride: vr01Name("n", q[2]), VRF: vr01Name("v", q[3])}
+				ctx = &allocator.Context{SessionID: vr01Nm('s', q[0]), ProfileName: vr01Nm('p', q[1]), PoolOverride: vr01Name("n", q[2]), VRF: vr01Name("v", q[3])}
 				if q[4] != "-" {
 					ctx.IPv4Address = vr01IP(q[4])
 				}
@@ -295,7 +319,7 @@ func vr01Res(f []string) string {
 				vr01Attr(attrs, "ipv6_prefix", q[4], false)
 				vr01Attr(attrs, "iana_pool", q[5], true)
 				vr01Attr(attrs, "pd_pool", q[6], true)
-				ctx = allocator.NewContext("s"+q[0], nil, 0, 0, vr01Name("v", q[2]), "", "", vr01Name("p", q[1]), attrs)
+				ctx = allocator.NewContext(vr01Nm('s', q[0]), nil, 0, 0, vr01Name("v", q[2]), "", "", vr01Name("p", q[1]), attrs)
 				c6[q[0]] = ctx
 			} else if op[0] == 'z' {
 				if ctx = c6[op[1:]]; ctx == nil {
@@ -304,7 +328,7 @@ func vr01Res(f []string) string {
 				}
 			} else {
 				q := strings.Split(op[1:], ",")
-				ctx = &allocator.Context{SessionID: "s" + q[0], IPv6ProfileName: "p" + q[1], IANAPoolOverride: vr01Name("n", q[2]),
+				ctx = &allocator.Context{SessionID: vr01Nm('s', q[0]), IPv6ProfileName: vr01Nm('p', q[1]), IANAPoolOverride: vr01Name("n", q[2]),
 					PDPoolOverride: vr01Name("n", q[3]), VRF: vr01Name("v", q[4])}
 				if q[5] != "-" {
 					ctx.IPv6Address = vr01IP(q[5])
@@ -347,7 +371,7 @@ func vr01Res(f []string) string {
 		case 'A':
 			fam := op[1]
 			q := strings.Split(op[2:], ",")
-			pf, ov, vrf, sid := "p"+q[1], vr01Name("n", q[2]), vr01Name("v", q[3]), "s"+q[0]
+			pf, ov, vrf, sid := vr01Nm('p', q[1]), vr01Name("n", q[2]), vr01Name("v", q[3]), vr01Nm('s', q[0])
 			var shown, pool string
 			var err error
 			switch fam {
